@@ -349,12 +349,13 @@ impl LocalPeerService {
                     }
                 }
             }
-            let acquere = acquired_lock.lock().await;
+            let mut acquere = acquired_lock.lock().await;
             let mut rooms: Vec<Uid> = Vec::new();
-            for room in acquere.iter() {
-                rooms.push(*room);
+            for room in acquere.drain() {
+                rooms.push(room);
             }
             Self::cleanup(&lock_service, rooms).await;
+            drop(acquere);
             let key = remote_verifying_key.lock().await;
             peer_service
                 .disconnect(key.clone(), circuit_id, connection_info.conn_id)
@@ -499,8 +500,11 @@ impl LocalPeerService {
                 }
             };
 
-            lock_service.unlock(room).await;
-            acquired_lock.lock().await.remove(&room);
+            // release the room only if the end-of-connection cleanup has not already done it
+            let held = acquired_lock.lock().await.remove(&room);
+            if held {
+                lock_service.unlock(room).await;
+            }
         });
 
         Ok(())
